@@ -179,6 +179,32 @@ int main()
       }
       g_enabled = true;
     }
+    else if (t[0] == "other" && t.size() == 4)
+    {
+      // another LIVE session of the same process (a library's own session next to the default one) with unconsumed events:
+      // its event source ids start at 1 again, its events carry writer id <t[1]>
+      static std::vector<std::unique_ptr<binlog::Session>> others;
+      static std::vector<std::unique_ptr<binlog::SessionWriter>> otherWriters;
+      others.push_back(std::make_unique<binlog::Session>());
+      binlog::Session& os = *others.back();
+      os.setClockSync(binlog::ClockSync{1, 1000000000, 5, 0, "OT"});
+      otherWriters.push_back(std::make_unique<binlog::SessionWriter>(os, std::stoull(t[2])));
+      binlog::EventSource src;
+      src.severity = binlog::Severity::warning; src.category = "othr"; src.formatString = "other {}"; src.argumentTags = "I";
+      const std::uint64_t id = os.addEventSource(src);
+      os.addEventSource(src);
+      const std::uint32_t wid = std::uint32_t(std::stoul(t[1]));
+      for (std::uint32_t i = 0; i < std::stoul(t[3]) && ! g_crashed; ++i)
+      {
+        Raw raw; raw.bytes.resize(8);
+        memcpy(&raw.bytes[0], &wid, 4); memcpy(&raw.bytes[4], &i, 4);
+        if (otherWriters.back()->addEvent(id, i, raw))
+        {
+          if (! g_completed.empty()) { g_completed += ','; }
+          g_completed += std::to_string(wid) + ":" + std::to_string(i);
+        }
+      }
+    }
     else if (t[0] == "consume") { session->consume(out); }
     else if (t[0] == "rotate") { session->reconsumeMetadata(out); }
     verif_point("op-boundary");
